@@ -457,6 +457,55 @@ func init() {
 		x.AddMany(u64s(a[1:]))
 		return d64(x)
 	})
+	// addstride64 x start step count : the values start + i*step, i < count (many buckets without a megabyte of script)
+	reg("addstride64", func(e *env, a []string) string {
+		need(a, 4)
+		x := e.b64(a[0])
+		start, step, cnt := u64(a[1]), u64(a[2]), u64(a[3])
+		if cnt > 1<<20 || step == 0 || (cnt > 0 && (^uint64(0)-start)/step < cnt-1) {
+			panic(skipErr{"stride out of range"})
+		}
+		vals := make([]uint64, cnt)
+		for i := range vals {
+			vals[i] = start + uint64(i)*step
+		}
+		x.AddMany(vals)
+		return d64(x)
+	})
+	// sermany64 x1 x2 … : serialize all of them first (keeping the returned slices), then look at the slices
+	reg("sermany64", func(e *env, a []string) string {
+		need(a, 1)
+		xs := make([]*roaring64.Bitmap, len(a))
+		for i, n := range a {
+			xs[i] = e.b64(n)
+		}
+		kept := make([][]byte, 0, 3*len(xs))
+		strs := make([]string, 0, len(xs))
+		for _, x := range xs {
+			b1, err1 := x.ToBytes()
+			b2, err2 := x.MarshalBinary()
+			s3, err3 := x.ToBase64()
+			if err1 != nil || err2 != nil || err3 != nil {
+				return "err:serialize"
+			}
+			kept = append(kept, b1, b2)
+			strs = append(strs, s3)
+		}
+		for i, x := range xs {
+			var w bytes.Buffer
+			if _, err := x.WriteTo(&w); err != nil {
+				return "err:writeto"
+			}
+			if !bytes.Equal(kept[2*i], w.Bytes()) || !bytes.Equal(kept[2*i+1], w.Bytes()) || strs[i] != base64.StdEncoding.EncodeToString(w.Bytes()) {
+				return fmt.Sprintf("changed@%d", i)
+			}
+			y := roaring64.New()
+			if _, err := y.FromUnsafeBytes(kept[2*i]); err != nil || !y.Equals(x) {
+				return fmt.Sprintf("undecodable@%d", i)
+			}
+		}
+		return "ok"
+	})
 	rangeOp := func(f func(x *roaring64.Bitmap, s, t uint64)) cmdFunc {
 		return func(e *env, a []string) string {
 			need(a, 3)
